@@ -16,7 +16,7 @@ LEVEL = "exploration"
 
 FORMATS = ["kida", "umist", "krome", "leeds", "uclchem", "naunet"]
 MODELS = ["", "hh93", "hh93i", "rr07", "rr07x"]
-BACKENDS = ["dense", "sparse", "rosenbrock4"]
+BACKENDS = ["dense", "sparse", "rosenbrock4"]  # the back-ends the property names; the cusparse branch below stays usable for replay experiments
 SHIELDS = [{}, {"H2": "L96Table"}, {"CO": "V09Table"}, {"CO": "VB88Table"}, {"N2": "L13Table"}, {"H2": "L96Table", "CO": "V09Table", "N2": "L13Table"}]
 THERMAL = [[], ["CIC_HI", "RC_HII"]]
 
@@ -172,7 +172,7 @@ def configs(tier):
 
 
 NAME_DIAG = re.compile(r"(was not declared in this scope|has not been declared|redeclaration of|redefinition of|conflicting declaration|previous declaration|previously declared|previously defined|is not a member of|has no member named)")
-SHIM_NAME = re.compile(r"^(SUN|N_V|CV|SM_|sun|boost|std|ublas|integrate_|make_|rosenbrock|realtype|booleantype)")
+SHIM_NAME = re.compile(r"^(SUN|N_V|CV|SM_|sun|boost|std|ublas|integrate_|make_|rosenbrock|realtype|booleantype|cuda|cusparse|cusolver|VERIF_|verif_|blockIdx|blockDim|threadIdx|gridDim)")
 
 
 def build_network(cfg):
@@ -256,11 +256,21 @@ def run_cfg(cfg):
             p = d / rel
             p.parent.mkdir(parents=True, exist_ok=True)
             p.write_text(text)
+        cuda = []
+        if cfg["backend"] == "cusparse":
+            # the CUDA sources are checked as host C++: qualifiers defined away, kernel launches rewritten to a call
+            cuda = ["-D__host__=", "-D__device__=", "-D__constant__=", "-D__global__="]
+            for rel in sorted(files):
+                if rel.startswith("src/") and rel.endswith(".cu"):
+                    txt = re.sub(r"\b(\w+)\s*<<<\s*([^,>]+),\s*([^,>]+)(?:,[^>]*)?>>>\s*\(", r"VERIF_LAUNCH(\1, \2, \3)(", files[rel])
+                    new_rel = rel[:-3] + "_cu.cpp"
+                    (d / new_rel).write_text("#include <algorithm>\nusing std::min; using std::max;\n" + txt)
+                    files[new_rel] = txt
         for rel in sorted(files):
             if not (rel.startswith("src/") and rel.endswith(".cpp")):
                 continue
             nfiles += 1
-            rc, so, se = runcmd([GXX, "-std=c++17", "-fsyntax-only", "-w", "-fmax-errors=0", "-fdiagnostics-plain-output", "-I", str(SHIM), "-I", "include", rel], cwd=str(d), timeout=300)
+            rc, so, se = runcmd([GXX, "-std=c++17", "-fsyntax-only", "-w", "-fmax-errors=0", "-fdiagnostics-plain-output", *cuda, "-I", str(SHIM), "-I", "include", rel], cwd=str(d), timeout=300)
             if rc == 0:
                 continue
             seen = set()
@@ -310,7 +320,7 @@ def run(ctx):
     ctx.assumptions += [
         "the SUNDIALS/Boost API is a hand-written shim (no SUNDIALS/Boost in the image); a diagnostic naming a shim/libc identifier is a harness error, never a violation",
         "only diagnostics about undeclared / redeclared / redefined names are judged here; other compiler errors are counted (other_diagnostics) and belong to C05/C16",
-        "pybind11 wrapper blocks (PYMODULE) are not compiled; cuSPARSE sources are not compilable here",
+        "pybind11 wrapper blocks (PYMODULE) are not compiled; the cuSPARSE sources are checked as host C++ (CUDA qualifiers defined away, kernel launches rewritten to a launcher call, CUDA/cuSPARSE API names from the shim)",
         "combinations the generator refuses in Python (reaction type not implemented by the grain model) are recorded as refused and left out of the probe network",
     ]
     return {
